@@ -759,6 +759,15 @@ func (e *Extractor) ExtractInner(re *syntax.Regexp) *Seq {
 
 // extractInner is the internal recursive implementation for inner literal extraction.
 func (e *Extractor) extractInner(re *syntax.Regexp, depth int) *Seq {
+	return e.extractInnerFrom(re, depth, false)
+}
+
+// extractInnerFrom extracts inner literals; with leading set, only literals
+// that every match of re begins with. The reverse-inner search splits the
+// pattern in front of an element and verifies the prefix up to the literal's
+// position, so a literal found behind x* or \d inside that element does not
+// mark where the element begins ([a-c]+(x*foo)\d*: Match said false).
+func (e *Extractor) extractInnerFrom(re *syntax.Regexp, depth int, leading bool) *Seq {
 	// Guard against excessive recursion
 	if depth > 100 {
 		return NewSeq()
@@ -785,9 +794,18 @@ func (e *Extractor) extractInner(re *syntax.Regexp, depth int) *Seq {
 		// For inner, try to find any literal in the concatenation
 		// Take the first one we find
 		for _, sub := range re.Sub {
-			seq := e.extractInner(sub, depth+1)
+			seq := e.extractInnerFrom(sub, depth+1, leading)
 			if !seq.IsEmpty() {
 				return seq
+			}
+			if leading {
+				// only zero-width elements may be stepped over
+				switch sub.Op {
+				case syntax.OpEmptyMatch, syntax.OpBeginLine, syntax.OpEndLine, syntax.OpBeginText, syntax.OpEndText,
+					syntax.OpWordBoundary, syntax.OpNoWordBoundary:
+					continue
+				}
+				return NewSeq()
 			}
 		}
 		return NewSeq()
@@ -797,7 +815,7 @@ func (e *Extractor) extractInner(re *syntax.Regexp, depth int) *Seq {
 		// If ANY alternative has no inner literal requirement, the whole alternation has none
 		var allLits []Literal
 		for _, sub := range re.Sub {
-			seq := e.extractInner(sub, depth+1)
+			seq := e.extractInnerFrom(sub, depth+1, leading)
 			if seq.IsEmpty() {
 				// This branch has no inner literal requirement
 				return NewSeq()
@@ -820,7 +838,7 @@ func (e *Extractor) extractInner(re *syntax.Regexp, depth int) *Seq {
 		if len(re.Sub) == 0 {
 			return NewSeq()
 		}
-		return e.extractInner(re.Sub[0], depth+1)
+		return e.extractInnerFrom(re.Sub[0], depth+1, leading)
 
 	case syntax.OpStar, syntax.OpQuest, syntax.OpPlus:
 		// Even for inner, optional repetition means we can't rely on it
@@ -1097,7 +1115,7 @@ func (e *Extractor) ExtractInnerForReverseSearch(re *syntax.Regexp) *InnerLitera
 	//  4. Has wildcards after it
 	for i := 1; i < len(re.Sub)-1; i++ {
 		// Check if this sub-expression has extractable literals
-		literals := e.extractInner(re.Sub[i], 0)
+		literals := e.extractInnerFrom(re.Sub[i], 0, true)
 		if literals.IsEmpty() {
 			continue
 		}
